@@ -536,33 +536,58 @@ Example C04_literal_verbatim_nonvacuous :
 Proof. exact literal_verbatim_nonvacuous. Qed.
 Print Assumptions C04_literal_verbatim_nonvacuous.
 
-(* The lexical constants of both parsers, read out of pkg/strvals/parser.go and
-   literal_parser.go with go/ast on every run (Gen/StrvalsTable.v): MaxIndex and
-   MaxNestedNameLevel are the model's; the runeSet literal of every parsing state, in source
-   order, is — on all 256 bytes — the stop function the models use in that state (and all its
-   members are ASCII, which is what makes the byte level and the rune level agree on them);
-   the runes compared with literally (the escape rune '\' of runesUntil and none in
-   runesUntilLiteral, ',' and '{' '}' of emptyVal / valList), the range checks of setIndex and
-   of every nesting-level test, typedVal's words in order and ParseInt's base and size are the
-   expected ones; and the models decide with exactly these values. *)
+(* The lexical constants and decisions of both parsers, read out of pkg/strvals/parser.go and
+   literal_parser.go with go/ast on every run (Gen/StrvalsTable.v), tied to the models
+   semantically — a behaviour-preserving rewrite of the Go text leaves every clause true:
+   MaxIndex and MaxNestedNameLevel are the model's; the stop set of every runesUntil /
+   runesUntilLiteral call (looked up by function; a runeSet literal in place, a local or a
+   package-level variable) is — on all 256 bytes — the stop function the models use in that
+   state, all members ASCII, and every state of the model is read somewhere; the set of runes
+   each function compares the current rune with is the expected one (the escape rune in
+   runesUntil only); unicode.IsSpace is used by emptyVal. *)
 Theorem C04_strvals_tables :
   go_max_index = max_index
   /\ go_max_nested_name_level = max_nested_name_level
-  /\ stops_agree model_stops go_stop_sets = true
-  /\ go_rune_cmps = expected_rune_cmps
-  /\ go_range_checks = expected_range_checks
-  /\ go_typed_words = ["true"; "false"; "null"; "0"]
-  /\ go_parse_int_args = [10; 64]
-  /\ go_is_space_users = ["parser.emptyVal"]
-  /\ (forall c : ascii,
-        stop_key c = mem_nat (nat_of_ascii c) [61; 91; 44; 46]
-        /\ stop_key_lit c = mem_nat (nat_of_ascii c) [61; 91; 46]
-        /\ stop_item c = mem_nat (nat_of_ascii c) [91; 46; 61]
-        /\ stop_rbr c = mem_nat (nat_of_ascii c) [93]
-        /\ stop_comma c = mem_nat (nat_of_ascii c) [44]
-        /\ stop_list c = mem_nat (nat_of_ascii c) [44; 125]
-        /\ stop_none c = mem_nat (nat_of_ascii c) [])
-  /\ (forall l i v, set_index l i v =
-        if (i <? 0)%Z then None else if (go_max_index <? i)%Z then None else Some (set_nth (Z.to_nat i) v l)).
+  /\ stops_ok go_stop_sets = true
+  /\ rune_sets_ok go_rune_sets = true
+  /\ go_is_space_users = ["parser.emptyVal"].
 Proof. exact tables_all. Qed.
 Print Assumptions C04_strvals_tables.
+
+(* typedVal of the Go source — extracted as an ordered list of (test, result) rules whatever
+   its syntax (if chain, tagless switch), parsed and interpreted here — is the model's typed_val2
+   for every flag and EVERY string (strings.EqualFold(v, "0") and v == "0" are the same test;
+   ParseInt must be base 10, 64 bits). *)
+Theorem C04_typed_val_table :
+  exists rules, go_rules_parsed = Some rules /\ forall (st : bool) (v : string), interp 0 rules st v = Some (typed_val2 st v).
+Proof. exact typed_rules_ok. Qed.
+Print Assumptions C04_typed_val_table.
+
+(* The range checks of the Go source, compiled to boolean functions of (index, length of the
+   list, nesting level), are the model's tests for ALL integers: setIndex rejects exactly the
+   indexes outside 0..MaxIndex (whatever the form and order of its tests: index > MaxIndex,
+   MaxIndex < index, !(index <= MaxIndex) …) and grows the list exactly when len <= index;
+   listItem of both parsers rejects exactly the negative indexes; the nesting-level tests (one
+   in key, two in listItem, per parser) all are MaxNestedNameLevel < level+1 on the incremented
+   level; "is there an element at list[i]" is index < len (two places per listItem); and
+   nothing else in these functions tests the index, the length or the level. *)
+Theorem C04_range_checks_table :
+  (forall index len level,
+     any_holds (fns_of "setIndex" go_error_guards) index len level = orb (index <? 0)%Z (max_index <? index)%Z)
+  /\ (List.length (fns_of "setIndex" go_len_conds) = 1
+      /\ forall f, In f (fns_of "setIndex" go_len_conds) -> forall index len level, f index len level = (len <=? index)%Z)
+  /\ (forall index len level, any_holds (fns_of "parser.listItem" go_error_guards) index len level = (index <? 0)%Z)
+  /\ (forall index len level, any_holds (fns_of "literalParser.listItem" go_error_guards) index len level = (index <? 0)%Z)
+  /\ (List.length (fns_of "parser.key" go_level_guards) = 1 /\ List.length (fns_of "parser.listItem" go_level_guards) = 2
+      /\ List.length (fns_of "literalParser.key" go_level_guards) = 1 /\ List.length (fns_of "literalParser.listItem" go_level_guards) = 2)
+  /\ (forall f, In f (fns_of "parser.key" go_level_guards ++ fns_of "parser.listItem" go_level_guards
+                      ++ fns_of "literalParser.key" go_level_guards ++ fns_of "literalParser.listItem" go_level_guards)%list ->
+        forall index len level, f index len level = (Z.of_nat max_nested_name_level <? level + 1)%Z)
+  /\ (List.length (fns_of "parser.listItem" go_len_conds) = 2 /\ List.length (fns_of "literalParser.listItem" go_len_conds) = 2)
+  /\ (forall f, In f (fns_of "parser.listItem" go_len_conds ++ fns_of "literalParser.listItem" go_len_conds)%list ->
+        forall index len level, f index len level = (index <? len)%Z)
+  /\ forallb (fun e => match snd e with [] => true | _ => false end) go_other_conds = true
+  /\ fns_of "parser.key" go_error_guards = [] /\ fns_of "literalParser.key" go_error_guards = []
+  /\ fns_of "setIndex" go_level_guards = [] /\ fns_of "parser.key" go_len_conds = [] /\ fns_of "literalParser.key" go_len_conds = [].
+Proof. exact range_checks_ok. Qed.
+Print Assumptions C04_range_checks_table.
